@@ -10,6 +10,12 @@ CHECKS = {
          "Runs the real Parse/Validate on generated schema trees and valid-biased inputs under many observed field-visit orders; whenever a call reports no issues an oracle independent of the reference evaluator walks schema and destination together and re-checks every declared test, Required/NotNil presence and the catch exemption. Exploration is the right level: the property quantifies over all schema trees, inputs and map-iteration schedules, which only sampling with measured coverage can approach at the API boundary.", "DESIGN.md §4 C01"),
  "C02": ("exploration", "runtime monitor: differential against an executable reference semantics (multiset of path|code|type), generated schemas x failure-biased inputs x permuted field orders, both modes",
          "Executes the real library and compares the returned issues, as a multiset of (path, code, type), and nil-ness with the reference semantics written from the property statements; failure-biased inputs make several nodes fail at once. Exploration with measured non-trivial coverage.", "DESIGN.md §4 C02"),
+ "C04": ("exploration", "runtime monitor: exhaustive enumeration of the absence decision table (kind x modifier sequence x context x input class x mode) on the real code, observed through issues, recording tests and sentinel-prefilled destinations",
+         "The decision table behind Required/Optional/Default/NotNil is finite; every cell is executed on the real library and compared with the reference (issues, whether the recording test ran and with which value, destination written or not); random deeper nestings on top. exhaustive: true for the table.", "DESIGN.md §4 C04"),
+ "C05": ("exploration", "runtime monitor: metamorphic differential on the real code (schema with Catch vs the same builder calls without Catch), attribution by unique issue codes, all placements of catching nodes, permuted field orders, both modes",
+         "No reference model: the schema with Catch and its twin without are executed on the same input; issues of non-catching nodes and every other leaf must be identical, a catching node that failed in the twin must hold exactly its catch value and one that did not fail must hold the twin's value.", "DESIGN.md §4 C05"),
+ "C09": ("exploration", "runtime monitor: repeated execution under observed field-visit orders and permuted insertion orders of schema and input maps; set of canonical results must be a singleton",
+         "Each (schema, data) is executed many times while the schema map and the input maps are rebuilt in random insertion orders; the visit order of each run is observed through recording tests; all runs must produce the same issue map (minus $first) and, on success, the same destination.", "DESIGN.md §4 C09"),
 }
 NA_REASON = "check under construction (monitor not yet registered in this commit)"
 checks = []
